@@ -1,6 +1,5 @@
 import Bmc.Proofs.C06
 import Bmc.Proofs.ApiWrappers
-import Bmc.Proofs.GenEnc.TranslatedOk
 import Bmc.Proofs.GenEnc.GetSensorReadingReq
 import Bmc.Proofs.GenEnc.GetDCMICapabilitiesInfoReq
 import Bmc.Proofs.GenEnc.GetDCMISensorInfoReq
@@ -18,7 +17,6 @@ import Bmc.Proofs.GenEnc.V1Session
 import Bmc.Proofs.GenEnc.Message
 import Bmc.Proofs.GenEnc.GetPowerReadingReq
 import Bmc.Proofs.GenEnc.V2Session
-import Bmc.Proofs.GenEnc.AES128CBC
 #print axioms Bmc.Proofs.C06.packet_parses
 #print axioms Bmc.Proofs.C06.payload_packet_parses
 #print axioms Bmc.Proofs.C06.operation_table
@@ -51,9 +49,6 @@ import Bmc.Proofs.GenEnc.AES128CBC
 #print axioms Bmc.Proofs.ApiWrappers.api_other_senders
 #print axioms Bmc.Proofs.ApiWrappers.api_cmd_constructors
 #print axioms Bmc.Proofs.ApiWrappers.validate_response
-#print axioms Bmc.Proofs.GenEnc.translated_ok
-#print axioms Bmc.Proofs.GenEnc.gaveUp_empty
-#print axioms Bmc.Proofs.GenEnc.uninterpreted_ok
 #print axioms Bmc.Proofs.GenEnc.GetSensorReadingReq_enc_eq
 #print axioms Bmc.Proofs.GenEnc.GetDCMICapabilitiesInfoReq_enc_eq
 #print axioms Bmc.Proofs.GenEnc.GetDCMISensorInfoReq_enc_eq
@@ -74,6 +69,3 @@ import Bmc.Proofs.GenEnc.AES128CBC
 #print axioms Bmc.Proofs.GenEnc.GetPowerReadingReq_enc_eq_any
 #print axioms Bmc.Proofs.GenEnc.GetPowerReadingReq_enc_eq
 #print axioms Bmc.Proofs.GenEnc.V2Session_enc_eq
-#print axioms Bmc.Proofs.GenEnc.AES128CBC_enc_param
-#print axioms Bmc.Proofs.GenEnc.AES128CBC_enc_eq
-#print axioms Bmc.Proofs.GenEnc.AES128CBC_enc_randErr
